@@ -1,6 +1,7 @@
 package engine
 
 import (
+	"google.golang.org/protobuf/types/dynamicpb"
 	"context"
 	"encoding/binary"
 	"fmt"
@@ -207,6 +208,9 @@ func payloadFor(reqID, idx int, dir byte, m MsgSpec) []byte {
 	for i := range b {
 		s = s*6364136223846793005 + 1442695040888963407
 		b[i] = byte(s >> 33)
+		if m.Over {
+			b[i] = byte(m.Seed) // compresses to almost nothing
+		}
 	}
 	if m.Size >= 8 {
 		b[0] = dir
@@ -222,6 +226,11 @@ type MsgSpec struct {
 	// Zero: the message with no field set at all (zero bytes of protobuf,
 	// "{}" in JSON), not merely an empty payload.
 	Zero bool   `json:"zero,omitempty"`
+	// Over: a highly compressible message whose encoding is larger than the
+	// receive limit while its gzip frame is smaller (gRPC family with gzip).
+	// Refusing it is C08's subject; what C06 cares about is that the handler
+	// gets it whole or not at all - never cut down to the limit.
+	Over bool `json:"over,omitempty"`
 	Size int    `json:"size"`
 	Seed uint64 `json:"seed"`
 	// Plain: on a stream that negotiated compression this message still goes
@@ -416,7 +425,7 @@ func (w *World) lookup(ctx context.Context) *reqState {
 func newMsgByDesc(d protoreflect.MessageDescriptor) proto.Message {
 	mt, err := protoregistry.GlobalTypes.FindMessageByName(d.FullName())
 	if err != nil {
-		panic(err)
+		return dynamicpb.NewMessage(d) // the synthetic files have no generated types
 	}
 	return mt.New().Interface()
 }
